@@ -20,11 +20,12 @@ int main(int argc, char** argv) {
   fe::campaign<OBIM::with_descending<true>::type>("OBIM<descending>", a, rng, "prio", 1);
   fe::campaign<AOBIM>("AdaptiveOBIM", a, rng, "prio");
   // the barrier option: strict level order for monotone programs
-  fe::campaign<OBIM::with_barrier<true>::type>("OBIM<barrier>", a, rng, "level-obim");
-  fe::campaign<OBIM::with_barrier<true>::type::with_descending<true>::type>("OBIM<barrier,descending>", a, rng, "level-obim", 1);
+  fe::campaign<OBIM::with_barrier<true>::type>("OBIM<barrier>", a, rng, "level-obim", 0, true, 5);
+  fe::campaign<OBIM::with_barrier<true>::type::with_descending<true>::type>("OBIM<barrier,descending>", a, rng, "level-obim", 1, true, 3);
   // bulk-synchronous rounds
-  fe::campaign<W::BulkSynchronous<>>("BulkSynchronous", a, rng, "level-bsp");
-  fe::campaign<W::BulkSynchronous<W::PerSocketChunkLIFO<2>>>("BulkSynchronous<PerSocketChunkLIFO<2>>", a, rng, "level-bsp");
+  fe::campaign<W::BulkSynchronous<>>("BulkSynchronous", a, rng, "level-bsp", 0, true, 2);
+  fe::campaign<W::BulkSynchronous<W::PerSocketChunkFIFO<2>>>("BulkSynchronous<PerSocketChunkFIFO<2>>", a, rng, "level-bsp", 0, true, 4);
+  fe::campaign<W::BulkSynchronous<W::PerSocketChunkLIFO<2>>>("BulkSynchronous<PerSocketChunkLIFO<2>>", a, rng, "level-bsp", 0, true, 3);
   fprintf(stderr, "foreach_c: %ld events\n", log.total);
   return 0;
 }
